@@ -109,11 +109,13 @@ def _mk_dc(fields, ndef):
             spec.append((f, int, dataclasses.field(default=0)))
         else:
             spec.append((f, int))
-    return dataclasses.make_dataclass("DC_" + "".join(fields) + "_%d" % ndef, spec)
+    # classes without defaults all carry the SAME qualified name: a notebook cell that is re-run, or a factory, defines many
+    # different classes under one name, and nothing about a class may be remembered under its name
+    return dataclasses.make_dataclass("DC_" + "".join(fields) + "_%d" % ndef if ndef else "DC_Record", spec)
 
 
 def _mk_nt(fields, ndef):
-    return collections.namedtuple("NT_" + "".join(fields) + "_%d" % ndef, list(fields), defaults=[0] * ndef)
+    return collections.namedtuple("NT_" + "".join(fields) + "_%d" % ndef if ndef else "NT_Record", list(fields), defaults=[0] * ndef)
 
 
 CLASSES = {}
